@@ -38,7 +38,7 @@ PROBES = ["tool_isolated", "layout_contiguous", "layout_chunked", "layout_gzip",
           "basin_internal", "basin_file", "basin_mapped", "basin_multi_defs", "basin_via_writer", "defective_feature_dropped",
           "unknown_feature_dropped", "strip_logs", "strip_basins", "chain_compress_compress", "chain_repack_compress",
           "chain_other", "idempotence_checked", "compress_log_renamed", "condense_basin_feature", "condense_ancillary_feature",
-          "condense_internal_basin_feature", "internal_basin_shadows_computable", "tdms_converted", "empty_feature_dataset", "empty_events_group",
+          "condense_internal_basin_feature", "internal_basin_shadows_computable", "tdms_converted", "empty_feature_dataset", "empty_feature_sorts_first", "empty_events_group",
           "basin_feature_compared", "model_input", "layout_input"]
 COMPONENTS = {
     "real": ["dclab.cli compress/repack/condense/tdms2rtdc", "dclab.rtdc_dataset.copier (rtdc_copy, h5ds_copy, basin_definition_copy)",
@@ -464,7 +464,13 @@ class World:
                         lay.dataset(ev, u, rs.uniform(0, 1, size=n))
                 if special == "empty_feature":
                     if pr.random() < 0.6:
-                        lay.dataset(ev, "userdef4", np.zeros(0, dtype=np.float64))
+                        # (often a name that sorts before every other feature of the file)
+                        ename = pr.choice(["userdef4", "area_cvx", "area_cvx"])
+                        if ename in ev:
+                            ename = "userdef4"
+                        lay.dataset(ev, ename, np.zeros(0, dtype=np.float64))
+                        if ename == sorted(ev)[0]:
+                            ctx.probe("empty_feature_sorts_first")
                     else:
                         lay.dataset(ev, "image_bg", np.zeros((0, H, Wd), dtype=np.uint8))
                     ctx.probe("empty_feature_dataset")
@@ -543,7 +549,9 @@ class World:
             if pr.random() < 0.4:
                 feats.append("userdef6")
                 lay.dataset(be, "userdef6", rs.uniform(0, 50, size=mi).astype(np.float32))
-            if pr.random() < 0.3:
+            if pr.random() < 0.3 and "image_bg" not in h["events"]:
+                # (never next to a stored - here: empty - image_bg: a feature held in /events and in /basin_events at once
+                #  is not a layout dclab writes)
                 feats.append("image_bg")
                 lay.dataset(be, "image_bg", rs.integers(0, 255, size=(mi, 8, 12)).astype(np.uint8))
             if pr.random() < 0.4 and "ml_class" not in h["events"]:
